@@ -142,3 +142,86 @@ def check_from_list_rows(ck: Checker, rule: str) -> None:
                    construct=f"{n.text()} / per-entry provenance")
     src = " ".join(norm(x) for x in walk_own(fl.node) if isinstance(x, ast.Call))
     ck.require("Meta.from_dict(entry)" in src and ("HashInfo.from_dict(entry)" in src), rule, fl, fl.node, "meta and hash are parsed from the same entry dict", "from_list does not parse Meta and HashInfo from the same entry", construct="Meta.from_dict(entry) + HashInfo.from_dict(entry)")
+
+
+# --------------------------------------------------------------------------
+# Tree.digest: one structural reading shared by C01 / C03 (robust to locals and keyword arguments)
+# --------------------------------------------------------------------------
+
+class DigestModel:
+    pass
+
+
+def digest_model(ck: Checker) -> "DigestModel":
+    from ..an import avoiding_path, count_on_paths, value_alts
+    from ..prov import get_arg
+
+    prog = ck.prog
+    m = DigestModel()
+    m.fn = dg = prog.func("hashfile.tree", "Tree.digest")
+    m.g = g = ck.cfg(dg)
+    hf = prog.func("hashfile.hash", "hash_file")
+    m.hcalls = [(n, c) for n in g.nodes.values() for c in calls_at(n) if call_name(c) == "hash_file"]
+    if not m.hcalls:
+        return m
+    m.hn, m.hc = hn, hc = m.hcalls[0]
+    arg = lambda name, pos: get_arg(hc, hf, name, pos=pos)  # noqa: E731
+    m.path, m.fs, m.algo, m.state = arg("path", 0), arg("fs", 1), arg("name", 2), arg("state", 3)
+    # writes of the scratch files
+    m.pipes = []
+    for n in g.nodes.values():
+        for c in calls_at(n):
+            if is_method_call(c, "pipe_file", "pipe"):
+                a0 = c.args[0] if c.args else next((k.value for k in c.keywords if k.arg in ("path", "rpath")), None)
+                a1 = c.args[1] if len(c.args) > 1 else next((k.value for k in c.keywords if k.arg in ("value", "data")), None)
+                if a0 is not None and a1 is not None:
+                    m.pipes.append((n, c, a0, a1))
+    # the hash result and its aliases (self.hash_info / a local)
+    aliases: Set[str] = set()
+    for n in g.nodes.values():
+        a = n.ast
+        if n.kind == "stmt" and isinstance(a, ast.Assign) and a.value is hc and isinstance(a.targets[0], (ast.Tuple, ast.List)) and len(a.targets[0].elts) == 2:
+            aliases.add(norm(a.targets[0].elts[1]))
+    changed = True
+    while changed:
+        changed = False
+        for n in g.nodes.values():
+            a = n.ast
+            if n.kind == "stmt" and isinstance(a, ast.Assign) and len(a.targets) == 1 and isinstance(a.value, (ast.Name, ast.Attribute)) and isinstance(a.targets[0], (ast.Name, ast.Attribute)):
+                l, r = norm(a.targets[0]), norm(a.value)
+                if (l in aliases) != (r in aliases) and not l.endswith(".value") and not r.endswith(".value") and not l.endswith(".oid"):
+                    aliases |= {l, r}
+                    changed = True
+    m.aliases = aliases
+
+    def is_suffix(e) -> bool:
+        return (isinstance(e, ast.Constant) and e.value == ".dir") or norm(e) == "HASH_DIR_SUFFIX"
+
+    def suffixed_expr(e) -> bool:
+        return isinstance(e, ast.BinOp) and isinstance(e.op, ast.Add) and is_suffix(e.right) and norm(e.left) in {f"{a}.value" for a in aliases}
+
+    m.suffix_nodes = []
+    for n in g.nodes.values():
+        a = n.ast
+        if n.kind != "stmt":
+            continue
+        if isinstance(a, ast.AugAssign) and isinstance(a.op, ast.Add) and norm(a.target) in {f"{x}.value" for x in aliases}:
+            m.suffix_nodes.append((n, is_suffix(a.value)))
+        elif isinstance(a, ast.Assign) and len(a.targets) == 1 and norm(a.targets[0]) in {f"{x}.value" for x in aliases}:
+            m.suffix_nodes.append((n, any(suffixed_expr(v) for v in value_alts(g, n, a.value, depth=2))))
+    m.suffix_once = False
+    if len(m.suffix_nodes) == 1 and m.suffix_nodes[0][1]:
+        sid = m.suffix_nodes[0][0].id
+        lo, hi, _ = count_on_paths(g, [(g.entry, None)], {g.exit}, lambda x: 1 if x.id == sid else 0)
+        m.suffix_once = lo == 1 and hi == 1
+    # self.oid
+    m.oid_nodes = [n for n in g.nodes.values() if n.kind == "stmt" and isinstance(n.ast, ast.Assign) and any(norm(t) == "self.oid" for t in n.ast.targets)]
+    m.oid_ok = bool(m.oid_nodes) and bool(m.suffix_nodes)
+    for n in m.oid_nodes:
+        alts = value_alts(g, n, n.ast.value, depth=2)
+        sn = m.suffix_nodes[0][0] if m.suffix_nodes else None
+        after = sn is not None and avoiding_path(g, n.id, lambda x: x.id == sn.id) is None
+        ok = any((norm(v) in {f"{a}.value" for a in aliases} and after) or suffixed_expr(v) for v in alts)
+        m.oid_ok = m.oid_ok and ok
+    m.result_bound = bool(aliases) and any(a.startswith("self.") for a in aliases)
+    return m
